@@ -213,6 +213,7 @@ package varlink
 //@ fieldrange Service.conncounter -4611686018427387904 4611686018427387904
 //@ ghost gCntDelta [ref]int
 //@ ghost gAccDelta int
+//@ ghost gSpawned int
 //@ fielddelta Service.conncounter gCntDelta
 
 //@ pred wfS(s) = s != nil && s.interfaces != nil && s.descriptions != nil && dispatchersNonNil(s) &&
@@ -467,8 +468,11 @@ package varlink
 //@   locks s
 //@   role server
 //@   requires [nn] s != nil && !held[s] && dispatchersNonNil(s)
-//@   modifies s.protocol, s.address, s.listener, s.running, s.conncounter, held, closed, wgAdds, wgWaited, gDlOk, gSetDl, gAccErr, gAccTimeout, gRunSeen, gCntSeen, gCntDelta, gAccDelta, gAdds, gBound, gBindRun, gRemoved, gAct, gPidOk, gNfds, gNfdsOk, gNamesSet, gNames, gFd, gFdCalled, gFLErr
+//@   modifies s.protocol, s.address, s.listener, s.running, s.conncounter, held, closed, wgAdds, wgWaited, gDlOk, gSetDl, gAccErr, gAccTimeout, gRunSeen, gCntSeen, gCntDelta, gAccDelta, gSpawned, gAdds, gBound, gBindRun, gRemoved, gAct, gPidOk, gNfds, gNfdsOk, gNamesSet, gNames, gFd, gFdCalled, gFLErr
 //@   ghostset at entry : gBound = nil
+//@   ghostset at entry : gSpawned = 0
+//@   ghostset at go#1 : gSpawned = gSpawned + 1
+//@   loop 1 invariant [balance C14] wgAdds[addr_wg] == gSpawned && gCntDelta[s] == old(gCntDelta)[s] + gSpawned
 //@   ghostset at entry : gAccErr = nil
 //@   ghostset at load(listener)#1 : gBound = res0
 //@   ghostset at call(Accept)#1 : gAccErr = res1
@@ -493,8 +497,11 @@ package varlink
 //@   locks s
 //@   role server
 //@   requires [nn] s != nil && !held[s] && dispatchersNonNil(s)
-//@   modifies s.protocol, s.address, s.listener, s.running, s.conncounter, held, closed, wgAdds, wgWaited, gDlOk, gSetDl, gAccErr, gAccTimeout, gRunSeen, gCntSeen, gCntDelta, gAccDelta, gAdds, gBound
+//@   modifies s.protocol, s.address, s.listener, s.running, s.conncounter, held, closed, wgAdds, wgWaited, gDlOk, gSetDl, gAccErr, gAccTimeout, gRunSeen, gCntSeen, gCntDelta, gAccDelta, gSpawned, gAdds, gBound
 //@   ghostset at entry : gBound = nil
+//@   ghostset at entry : gSpawned = 0
+//@   ghostset at go#1 : gSpawned = gSpawned + 1
+//@   loop 1 invariant [balance C14] wgAdds[addr_wg] == gSpawned && gCntDelta[s] == old(gCntDelta)[s] + gSpawned
 //@   ghostset at entry : gAccErr = nil
 //@   ghostset at load(listener)#1 : gBound = res0
 //@   ghostset at call(Accept)#1 : gAccErr = res1
